@@ -335,8 +335,32 @@ def _sh(x):
     return s if len(s) < 240 else s[:240] + '...'
 
 
+def only_rounding(a, b):
+    """True iff two observations are equal except for float value arrays that agree to within 2 units in the last
+    place everywhere (NumPy's math kernels round differently for contiguous and strided input, so a copy made on one
+    side only shows up as a last-bit difference; KF-C03-layout-rounding)"""
+    if type(a) != type(b):
+        return False
+    if isinstance(a, dict):
+        return set(a) == set(b) and all(only_rounding(a[k], b[k]) for k in a)
+    if isinstance(a, tuple) and len(a) == 2 and isinstance(a[1], bytes) and isinstance(b, tuple) and len(b) == 2 \
+            and isinstance(b[1], bytes) and a != b:
+        if a[0] != b[0] or len(a[1]) != len(b[1]) or not str(a[0]).lstrip('<>=|').startswith('f'):
+            return False
+        x, y = np.frombuffer(a[1], dtype=a[0]), np.frombuffer(b[1], dtype=b[0])
+        with np.errstate(all='ignore'):
+            same = (x == y) | (np.isnan(x) & np.isnan(y))
+            close = np.abs(x - y) <= 2 * np.spacing(np.maximum(np.abs(x), np.abs(y)))
+        return bool(np.all(same | (close & np.isfinite(x) & np.isfinite(y))))
+    if isinstance(a, (tuple, list)):
+        return len(a) == len(b) and all(only_rounding(x, y) for x, y in zip(a, b))
+    return a == b
+
+
 def diff_kind(path, base, twin):
     """coarse class of a twin difference, for signatures"""
+    if base['ok'] == twin['ok'] and base['ok'] and only_rounding(base, twin):
+        return 'result:values~rounding'
     if base['ok'] != twin['ok']:
         return 'raises-vs-returns'
     if not base['ok'] and base['exc'] != twin['exc']:
